@@ -338,14 +338,15 @@ class C09(CoreCheck):
             "non-trivial = >= 1 raw-event callback; distinct = distinct scenario text")
     assumptions = ["single-threaded scenarios: posts by other contexts are kernel-side counter increments injected at wait entry or between "
                    "actions; the interleaving of a poster with the owner inside iv_event_raw_got_event is covered by the MT checks",
-                   "implementation runs use bursts of up to 18000 posts (one trace segment per post, trace cap 20000); bursts larger than "
-                   "a pipe buffer (65536 posts) are covered by the theorem, which holds for every burst length on the model whose pipe "
-                   "semantics (65536 bytes, then EAGAIN, never blocking) is probed against Linux on every C15 run (vk_smoke)"]
+                   "bursts larger than a pipe buffer (65535 .. 70000 posts) run in the thorough tier only (three per round; the model "
+                   "needs about two minutes for one); the quick tier uses bursts up to 16384; the pipe semantics of the virtual kernel "
+                   "(65536 bytes, then EAGAIN, never blocking) is probed against Linux on every C15 run (vk_smoke)"]
 
     def nontrivial(self, case, mo):
         return self.count(mo, r"\| Cr") >= 1
 
     def gen_cases(self, ctx, rng, n):
+        self._big_bursts = 0
         cases = CoreCheck.gen_cases(self, ctx, rng, n)
         # a raw event re-posted from inside its own handler (after the read) and bursts from outside,
         # with nothing else keeping the loop awake
@@ -371,11 +372,15 @@ class C09(CoreCheck):
         for _ in range(max(6, n // 40)):
             be = rng.choice(self.backends)
             fl = rng.choice([["noeventfd"], ["noeventfd"], ["noeventfd2"], None])
-            # the trace has one segment per post and ivsim cuts a trace after 20000 segments (run-away guard), so bursts
-            # stay below that; bursts beyond a pipe buffer (65536) are covered by the theorem (every burst length; the
-            # virtual pipe returns EAGAIN when full, probed against Linux by vk_smoke) -- see `assumptions`
-            burst = rng.choice([1023, 1024, 1025, 2047, 2048, 3072, 4096, 1024]) if ctx.tier == "quick" or rng.random() < 0.8 \
-                else rng.choice([8191, 8192, 12000, 16384, 18000])
+            # consecutive identical posts are one trace segment ("a rp0 *N", ivsim.c / core_drv.ml.in), so bursts beyond a
+            # pipe buffer (65536) fit below the trace cap; the model needs ~2 minutes for such a case, so only the thorough
+            # tier has them, and only a few per round
+            big = ctx.tier != "quick" and self._big_bursts < 3 and rng.random() < 0.5
+            if big:
+                self._big_bursts += 1
+                burst = rng.choice([65535, 65536, 65537, 70000])
+            else:
+                burst = rng.choice([1023, 1024, 1025, 2047, 2048, 3072, 4096, 1024, 8192, 16384])
             where = rng.choice(["S", "W"])
             secs = ["B" + be] + (["X" + ",".join(fl)] if fl else []) + ["M6"]
             posts = " ".join(["rp0"] * burst)
